@@ -34,11 +34,14 @@ def script_of(hist):
             arr = [arr[str(u)] for u in range(1, n + 1)]
         for u in range(1, n + 1):
             k = arr[u - 1]
-            if u in dropped or k == 0:
+            if u in dropped or (k == 0 and cy["x"] != "aerr%d" % u) or (k == 0 and u == st["chr"]):
                 continue
             if u == st["chr"]:
                 data = "".join(chr(ord('a') + (seq[u] + j) % 26) for j in range(k))
                 seq[u] += k
+            elif cy["x"] == "aerr%d" % u:
+                # type-ahead of failing commands: every one ends in an uncaught error (at least two of them)
+                data = "do me err\r\n" * max(k, 2)
             else:
                 data = ""
                 for j in range(k):
@@ -125,6 +128,12 @@ def run(tier, work):
     print("TLC P1 CmdTurnImpl: %d states, %d transitions, %s" % (mc["states"], mc["transitions"], "ok" if mc["ok"] else "VIOLATED"))
     if not mc["ok"]:
         raise vlib.Broken("CmdTurnImpl violates its invariants:\n" + mc["out"][-2000:])
+    # the same model with one line of the implementation changed must violate them (the invariants are not vacuous)
+    for cfg in ("MCImplMutAdvance.cfg", "MCImplMutBound.cfg", "MCImplMutTurn.cfg"):
+        mm = vlib.model_check(SPEC, "CmdTurnImpl", cfg, work, "p1m", timeout=900)
+        if mm["ok"]:
+            raise vlib.Broken("CmdTurnImpl with %s satisfies the invariants: they are vacuous" % cfg)
+    print("TLC P1 CmdTurnImpl weakened (cursor stays on the served slot / single call per cycle / no turn test): violated, as required")
     hists, _ = vlib.generate(SPEC, "CmdTurnGen", "GenQuick.cfg" if tier == "quick" else "GenThorough.cfg", work, "p2a")
     nsim = 1200 if tier == "quick" else 30000
     sims, _ = vlib.generate(SPEC, "CmdTurnGen", "GenSim.cfg", work, "p2b", workers=4,
